@@ -482,71 +482,6 @@ func (s *seqRT) ruleSync() {
 	}
 }
 
-// ruleChain: within MoveNext/Send the resumption is called synchronously and
-// the generator's delivered value / pending resumption are only overwritten
-// after that call returned (so a panic leaves earlier values untouched).
-func (s *seqRT) ruleChain() {
-	c := s.c
-	c.min("SEQ.CHAIN", 2)
-	nt, _ := s.generatorType()
-	for _, mname := range []string{"MoveNext", "Send"} {
-		var fn *ssa.Function
-		for i := 0; i < nt.NumMethods(); i++ {
-			if nt.Method(i).Name() == mname {
-				fn = s.w.Prog.FuncValue(nt.Method(i))
-			}
-		}
-		if fn == nil {
-			undecided("generator method %s not found", mname)
-		}
-		in := s.interp()
-		in.OnCall = func(cc *CallCtx) []Answer {
-			if _, isSym := cc.Callee.(Sym); !isSym {
-				return nil
-			}
-			return []Answer{{Ret: []AV{Nil{}}, Label: "nil"}, {Ret: []AV{Sym{Name: "step", NN: true}}, Label: "set"}}
-		}
-		in.Fields = map[string]AV{}
-		args := []AV{Sym{Name: "d", NN: true}}
-		if mname == "Send" {
-			args = append(args, Sym{Name: "sendv"})
-		}
-		outs := in.Run(nil, fn, args, nil)
-		s.account(in)
-		good := true
-		sawCall := false
-		detail := ""
-		for _, o := range outs {
-			firstCall := -1
-			for i, e := range o.St.Events {
-				if e.Kind == "call" && e.Fn == nil {
-					firstCall = i
-					sawCall = true
-					break
-				}
-			}
-			for i, e := range o.St.Events {
-				if e.Kind == "store" && strings.HasPrefix(e.Target, "d.") && (firstCall < 0 || i < firstCall) {
-					// only a bool flag (started) may be written before the resumption runs
-					if _, isBool := asBool(e.Args[0]); !isBool {
-						good = false
-						detail = "store " + e.Target + " happens before the resumption is called: " + strings.Join(o.St.TraceStrings(), " ; ")
-					}
-				}
-				if e.Kind == "go" || e.Kind == "defer" {
-					good = false
-					detail = e.Kind + " in the advance path"
-				}
-			}
-		}
-		if !sawCall {
-			c.und("SEQ.CHAIN", mname, s.w.FnPos(fn), "no path of "+mname+" calls the pending resumption")
-			continue
-		}
-		c.check(good, "SEQ.CHAIN", mname, s.w.FnPos(fn), "the pending resumption is called synchronously inside "+mname+"; current/next are only overwritten after it returned", detail)
-	}
-}
-
 // ------------------------------------------------------------------ SEQ.STATE
 
 // originOfFreeVar resolves a free variable to the value bound in the creating function.
